@@ -11,7 +11,7 @@ package syncmap
 
 // The map is read and written under mu only - also by the iterators, which walk a
 // snapshot taken under the lock (their loop bodies may call Set and Delete).
-//@ field map_map_K_ guarded_by mu
+//@ field map_map_K_ guarded_by mu also:C11
 
 // The certificate store (C11) and the session store rely on every operation returning with
 // the map's lock released, whatever the map holds at that moment.
